@@ -257,6 +257,9 @@ impl DiskCache {
                 &&& ci.range == *range
                 &&& ci.len == bytes.len()
                 &&& ci.checksum == crc32(bytes)
+                // = the flag invariant of U-CACHEGET: what `VerificationCell::new_verified(cache_item)` (a write of the shared
+                // flag) needs; the item is verified by construction because this very call wrote the file it checksummed
+                &&& crc32(final(vx_fs).files@[spec_item_path(*self, *key, ci)]) == ci.checksum
                 &&& file_roundtrips(bytes, *range, chunk_byte_indices@, data@)
             },
 //@ body-start
